@@ -1193,3 +1193,83 @@ Proof.
   destruct (cone_invariant_partial q E G Hq ops q (R_init q E G HE) Hops) as [Hn [Hd [_ [_ [Hs He]]]]].
   repeat split; assumption.
 Qed.
+
+(* ------------------------------------------------------------------------------------------ *)
+(* Tracked environment variables                                                               *)
+(* ------------------------------------------------------------------------------------------ *)
+Lemma in_nodup_strs x l : In x l -> In x (nodup_strs l).
+Proof.
+  induction l as [|y l IH]; intros H; cbn [nodup_strs]; [destruct H|].
+  destruct H as [->|H]; [left; reflexivity|].
+  destruct (str_eqb x y) eqn:He.
+  - left. symmetry. apply str_eqb_eq. exact He.
+  - right. apply filter_In. split; [apply IH; exact H | rewrite He; reflexivity].
+Qed.
+
+Lemma env_unchanged_steps vals cur s : env_unchanged_b vals cur s = true -> rescan_env_steps vals cur s = [].
+Proof.
+  intros H. unfold rescan_env_steps. rewrite filter_nil; [reflexivity|].
+  intros r Hr. unfold env_unchanged_b in H. rewrite forallb_forall in H. apply negb_true_iff. apply H. exact Hr.
+Qed.
+
+Lemma env_unchanged_store b vals cur s : env_unchanged_b vals cur s = true -> rescan_env_store b vals cur s = vals.
+Proof.
+  intros H. unfold rescan_env_store. destruct b; [|reflexivity].
+  unfold env_unchanged_b in H. rewrite forallb_forall in H.
+  induction vals as [|r vals IH]; cbn [map]; [reflexivity|].
+  rewrite (proj1 (negb_true_iff _) (H r (or_introl eq_refl))). f_equal.
+  apply IH. intros x Hx. apply H. right. exact Hx.
+Qed.
+
+(* restart with an unchanged environment, values included: no step is marked, the recorded values
+   stay, and restart_noop applies to the whole startup sequence *)
+Theorem restart_noop_env (s : st) (vals : list envval) (cur : str -> option N) (b : bool)
+        (rehash : list (str * option N)) :
+  quiescent_success_b s = true -> unchanged_b s rehash = true -> env_unchanged_b vals cur s = true ->
+  run_ops (startup_ops_env s vals cur rehash) s = s /\ rescan_env_store b vals cur s = vals /\
+  (forall l, dispatch_guard l s = false).
+Proof.
+  intros Hq Hun He. unfold startup_ops_env. rewrite (env_unchanged_steps vals cur s He).
+  destruct (restart_noop s rehash Hq Hun) as [Hrun [Hg _]].
+  split; [exact Hrun|]. split; [apply env_unchanged_store; exact He | exact Hg].
+Qed.
+
+(* a changed variable of an attached step is noticed *)
+Theorem env_change_detected (s : st) (vals : list envval) (cur : str -> option N) (r : envval) :
+  In r vals -> attached (KStep, ev_step r) s = true -> cur (ev_name r) <> ev_value r ->
+  In (ev_step r) (rescan_env_steps vals cur s).
+Proof.
+  intros Hin Hatt Hne. unfold rescan_env_steps. apply in_nodup_strs. apply in_map. apply filter_In.
+  split; [exact Hin|]. unfold env_row_changed. rewrite Hatt. cbn [andb]. apply negb_true_iff.
+  destruct (on_eqb (cur (ev_name r)) (ev_value r)) eqn:He; [|reflexivity].
+  exfalso. apply Hne. destruct (cur (ev_name r)) as [x|], (ev_value r) as [y|]; cbn in He; try discriminate; [|reflexivity].
+  apply N.eqb_eq in He. subst. reflexivity.
+Qed.
+
+(* A -> B -> A: when the value that was seen is stored, the return to A is noticed too *)
+Theorem env_aba_detected (s s' : st) (vals : list envval) (curB curA : str -> option N)
+        (l n : str) (a : option N) :
+  In (l, n, a) vals ->
+  attached (KStep, l) s = true -> attached (KStep, l) s' = true ->
+  curB n <> a -> curA n = a ->
+  In l (rescan_env_steps vals curB s) /\
+  In l (rescan_env_steps (rescan_env_store true vals curB s) curA s').
+Proof.
+  intros Hin Hatt Hatt' HB HA. split.
+  - exact (env_change_detected s vals curB (l, n, a) Hin Hatt HB).
+  - assert (Hrow : In (l, n, curB n) (rescan_env_store true vals curB s)).
+    { unfold rescan_env_store. apply in_map_iff. exists (l, n, a). split; [|exact Hin].
+      assert (Hc : env_row_changed curB s (l, n, a) = true).
+      { unfold env_row_changed. cbn [ev_step ev_name ev_value fst snd]. rewrite Hatt. cbn [andb].
+        apply negb_true_iff. destruct (on_eqb (curB n) a) eqn:He; [|reflexivity].
+        exfalso. apply HB. destruct (curB n) as [x|], a as [y|]; cbn in He; try discriminate; [|reflexivity].
+        apply N.eqb_eq in He. subst. reflexivity. }
+      rewrite Hc. reflexivity. }
+    apply (env_change_detected s' _ curA (l, n, curB n) Hrow Hatt').
+    cbn [ev_name ev_value fst snd]. rewrite HA. intros Heq. apply HB. symmetry. exact Heq.
+Qed.
+
+Lemma env_rule_tie : gen_env_rescan_stores_seen_value = true /\
+                     existsb (N.eqb (fstate_code FUnconfirmed)) gen_confirmation_kept_states
+                     = gen_drops_stale_confirmation.
+Proof. split; reflexivity. Qed.
